@@ -122,6 +122,12 @@ type style struct {
 	assetVar bool   // amounts as [$as N], the asset being a variable
 	collide  bool   // send i uses asset collideAssets[i] and accounts renamed by collideName
 	send     int    // index of the send being rendered
+	pv       *pvars // portions given by variables (negative denominator), collected while rendering
+}
+
+type pvars struct {
+	decls []string
+	vals  map[string]string
 }
 
 var collideAssets = []string{"USD", "SD"}
@@ -192,6 +198,13 @@ func percent(p Por) (string, bool) {
 func por(p Por, st style) string {
 	if p.N < 0 {
 		return "remaining"
+	}
+	if p.D < 0 {
+		// a portion variable; its value is always written as a fraction
+		name := fmt.Sprintf("p%d", len(st.pv.decls))
+		st.pv.decls = append(st.pv.decls, "\tportion $"+name+"\n")
+		st.pv.vals[name] = fmt.Sprintf("%d/%d", p.N, -p.D)
+		return "$" + name
 	}
 	if st.pct {
 		if t, ok := percent(p); ok {
@@ -272,10 +285,14 @@ func dstText(d Dst, st style) string {
 func render(sends []SendStmt, k *big.Int) string { return renderStyled(sends, style{k: k}) }
 
 func renderStyled(sends []SendStmt, st style) string {
+	t, _ := renderFull(sends, st)
+	return t
+}
+
+// renderFull: the text and the values of the variables it declares for portions
+func renderFull(sends []SendStmt, st style) (string, map[string]string) {
 	var sb strings.Builder
-	if st.assetVar {
-		sb.WriteString("vars {\n\tasset $as\n}\n")
-	}
+	st.pv = &pvars{vals: map[string]string{}}
 	for i, s := range sends {
 		st.send = i
 		amt := mon(s.Amt, st)
@@ -287,7 +304,25 @@ func renderStyled(sends []SendStmt, st style) string {
 		}
 		fmt.Fprintf(&sb, "send %s (\n\tsource = %s\n\tdestination = %s\n)\n", amt, indent(srcText(s.Src, st)), indent(dstText(s.Dst, st)))
 	}
-	return sb.String()
+	decls := strings.Join(st.pv.decls, "")
+	if st.assetVar {
+		decls = "\tasset $as\n" + decls
+	}
+	if decls != "" {
+		return "vars {\n" + decls + "}\n" + sb.String(), st.pv.vals
+	}
+	return sb.String(), st.pv.vals
+}
+
+func withVars(base map[string]string, more map[string]string) map[string]string {
+	out := map[string]string{}
+	for k, v := range base {
+		out[k] = v
+	}
+	for k, v := range more {
+		out[k] = v
+	}
+	return out
 }
 
 // ---- execution --------------------------------------------------------------
@@ -565,15 +600,15 @@ func runCase(c Case) Result {
 	if c.Binding == "collide" {
 		return runCollide(c)
 	}
-	text := render(c.Sends, one)
-	raw := execute(text, map[string]string{}, storeOf(c.Bal, one))
+	text, pvals := renderFull(c.Sends, style{k: one})
+	raw := execute(text, withVars(pvals, nil), storeOf(c.Bal, one))
 	real, _ := outcomeOf(raw, one)
 	if a := wrongAsset(raw, asset); a != "" {
 		real.Class = "wrong-asset:" + a
 	}
 	res := Result{Case: c, Real: real, ScaledOk: true, Text: text, ScaledBad: []Outcome{}, SpellingBad: []Outcome{}, UnitBad: []Outcome{}}
 	// a second execution of the same text must give the same outcome
-	raw2 := execute(text, map[string]string{}, storeOf(c.Bal, one))
+	raw2 := execute(text, withVars(pvals, nil), storeOf(c.Bal, one))
 	real2, _ := outcomeOf(raw2, one)
 	res.Again = same(real, real2)
 	crashed := strings.HasPrefix(real.Class, "panic") || real.Class == "hang"
@@ -582,7 +617,7 @@ func runCase(c Case) Result {
 		// The factors sit around the 2^63 / 2^64 boundaries so that some amounts of a
 		// case fit a machine word and others (or their sums) do not.
 		for _, k := range scaleFactors {
-			rawS := execute(render(c.Sends, k), map[string]string{}, storeOf(c.Bal, k))
+			rawS := execute(render(c.Sends, k), withVars(pvals, nil), storeOf(c.Bal, k))
 			scaled, exact := outcomeOf(rawS, k)
 			if !(exact && same(scaled, real)) {
 				res.ScaledOk = false
@@ -603,7 +638,7 @@ func runCase(c Case) Result {
 		// fit a machine word while amount x numerator does not.
 		for _, u := range unitFactors {
 			ku := new(big.Int).Mul(big.NewInt(c.K), u)
-			rawU := execute(render(c.Sends, ku), map[string]string{}, storeOf(c.Bal, ku))
+			rawU := execute(render(c.Sends, ku), withVars(pvals, nil), storeOf(c.Bal, ku))
 			scaled, exact := outcomeOf(rawU, u)
 			if !exact {
 				res.UnitInexact = true
@@ -619,7 +654,7 @@ func runCase(c Case) Result {
 		// other spellings of the same program
 		try := func(name string, st style, vars map[string]string, store vm.Store, allowed string) {
 			st.k = one
-			rawV := execute(renderStyled(c.Sends, st), vars, store)
+			rawV := execute(renderStyled(c.Sends, st), withVars(pvals, vars), store)
 			o, _ := outcomeOf(rawV, one)
 			if a := wrongAsset(rawV, allowed); a != "" {
 				o.Class = "wrong-asset:" + a
